@@ -184,6 +184,23 @@ func c29(c *engine.Ctx) {
 			if ld := c29Snapshot(ic, sc.Chan); ld != nil {
 				d = engine.Describe(ld) // read inside a snapshot helper such as primaryConn()
 			}
+			// a channel obtained from a helper of the same receiver (clientDone()
+			// returning c.ctx.Done() or nil): described by what the helper returns
+			if hc, isC := engine.Unwrap(sc.Chan).(*ssa.Call); isC {
+				if h := hc.Common().StaticCallee(); h != nil && len(h.Blocks) > 0 && h.Pkg == ic.Pkg && len(h.Params) == 1 && len(hc.Common().Args) == 1 && engine.Unwrap(hc.Common().Args[0]) == ssa.Value(ic.Params[0]) {
+					var ds []string
+					for _, r := range engine.Returns(h) {
+						for _, l := range engine.Leaves(engine.RetVal(r, 0)) {
+							if !engine.IsNil(l) {
+								ds = append(ds, strings.ReplaceAll(engine.Describe(l), "p:"+engine.ParamName(h.Params[0])+".", "p:c."))
+							}
+						}
+					}
+					if len(ds) > 0 {
+						d = strings.Join(ds, " | ")
+					}
+				}
+			}
 			switch {
 			case isDoneOf(sc.Chan, "p:ctx"):
 				has["caller"] = sc.Body
